@@ -65,5 +65,40 @@ META = dict(
 )
 
 
+def _accept(go, alt):
+    """token-by-token acceptance: every token Go reports equals one of the values the model lists for
+    that token (the code as it is, or a tree with some of the known findings repaired)"""
+    g, a = go.split(" "), alt.split(" ")
+    return len(g) == len(a) and all(x in y.split("|") for x, y in zip(g, a))
+
+
 def run(ctx):
-    return checklib.standard(ctx, SPEC)
+    # checklib.standard compares whole result lines (Go == model or Go == spec). The two known findings
+    # of C18 are independent, so a tree that repairs ONE of them equals neither string on inputs that
+    # show both. The driver therefore lists per token what is acceptable (`alt=`); a Go line that is
+    # acceptable token by token is handed to the standard comparison as the case's `spec`.
+    stash = {}
+    orig_cases, orig_driver = checklib.run_cases, checklib.run_driver
+
+    def run_cases(*a, **k):
+        res = orig_cases(*a, **k)
+        stash["go"] = res[1]
+        return res
+
+    def run_driver(c, prop, cases, *a, **k):
+        model = orig_driver(c, prop, cases, *a, **k)
+        n = 0
+        for i, (m, attrs) in model.items():
+            g = stash.get("go", {}).get(i)
+            if "alt" in attrs and g is not None and g != m and g != attrs.get("spec") and _accept(g, attrs["alt"]):
+                attrs["spec"] = g
+                n += 1
+        if n:
+            c.coverage["accepted_token_by_token"] = n
+        return model
+
+    checklib.run_cases, checklib.run_driver = run_cases, run_driver
+    try:
+        return checklib.standard(ctx, SPEC)
+    finally:
+        checklib.run_cases, checklib.run_driver = orig_cases, orig_driver
